@@ -69,6 +69,10 @@ THEMES = {
  'sameblock': 'the change must show only when two or more specific operations fall into the SAME block or the same transaction (several messages of one transaction, a message in the very block in which a batch starts or expires, two contexts of one consumer or one provider due in one block, expiry and next start in one block).',
  'twosites': 'the change must consist of TWO edits in different functions (preferably different files) such that each edit alone leaves the property intact and only both together break it.',
  'order': 'the change must alter the ORDER of two operations inside one function (a write before a check, a delete before a read, a transfer before a record update, an event before a state change, an iteration that mutates what it iterates) in a way that is harmless in ordinary flows.',
+ 'wiring': 'the change must be in the WIRING, not in the business logic: app/app.go (keeper construction, module account permissions, blocked addresses, store keys, order of begin/end blockers and of genesis init), module.go (routes, querier and gRPC registration, genesis entry points, EndBlock), handler.go (message routing), keeper/keeper.go (constructor, fields), keeper/params.go, types/codec.go, types/expected_keepers.go. The demonstration should drive the application (simapp) rather than isolated keeper functions where that matters.',
+ 'validation': 'the change must be in STATELESS or structural validation (types/msgs.go ValidateBasic and its helpers, types/binding.go / definition.go / invocation.go Validate functions, types/schema.go, types/genesis.go, types/params.go): a check loosened, reordered, applied to the wrong field or skipped for a special case, so that an input which used to be refused now reaches the keeper and misbehaves there (or a stored object is no longer what validation promises).',
+ 'cache': 'the change must introduce or alter REUSED STATE: a memo or cache (inside one call, one block, the keeper struct, or package level), a reused buffer or slice, a value captured before a write and used after it, a pointer or slice aliasing something that is modified later. Ordinary single-object flows must behave exactly as before.',
+ 'iterator': 'the change must be about ITERATION over the store: prefix and range bounds, end keys, reverse iteration, iterating while deleting or writing, closing iterators, early break / continue conditions, helper functions that build sub-space keys, collecting keys first versus acting during the scan.',
  'numeric': 'the change must be about NUMBERS: integer/decimal conversions, truncation vs rounding, int64/uint64/uint32 casts, comparisons (< vs <=), zero and negative values, very large amounts, multiplication order, values near 2^31, 2^32, 2^63.',
 }
 
